@@ -156,9 +156,55 @@ func genPauseWorld(rng *rand.Rand, sc *Scenario, messages []string, errorPages s
 	if errorPages != "" {
 		svc = &SvcOpts{ErrorPages: errorPages}
 	}
-	op.Ops = append(op.Ops, Op{Kind: "deploy", Service: "web", Targets: mk(), DeployTimeout: 5 * time.Second, DrainTimeout: time.Second, Svc: svc})
+	// a third of the worlds: the service lives under a path prefix (stripped or
+	// not), so that "<prefix>/up" is an ordinary path and not the health check
+	var paths []string
+	if rng.Intn(3) == 0 {
+		paths = []string{"/app"}
+		if svc == nil {
+			svc = &SvcOpts{}
+		}
+		svc.StripPrefix = rng.Intn(3) != 0
+	}
+	first := mk()
+	op.Ops = append(op.Ops, Op{Kind: "deploy", Service: "web", Paths: paths, Targets: first, DeployTimeout: 5 * time.Second, DrainTimeout: time.Second, Svc: svc})
 	n := 3 + rng.Intn(5)
 	state := "running"
+	var flapD time.Duration
+	flapPointsOn := true
+	for _, d := range sc.Sched.Disabled {
+		if d == "drain.marked" || d == "drain.cancel" || d == "drain.end" {
+			flapPointsOn = false
+		}
+	}
+	if time.Duration(sc.Sched.StallMax)*sc.Sched.StallDelta > 80*time.Millisecond {
+		flapPointsOn = false // CPU stalls could move a probe across the end of the drain
+	}
+	if len(first) == 1 && flapPointsOn && rng.Intn(3) == 0 {
+		// the (only) target fails its probes for as long as a pause is draining it
+		// (a slow request keeps the drain going) and answers them again from the
+		// moment the drain is over: it is never out of rotation, so after the
+		// resume everything is forwarded as usual
+		// (the slow request, sent at 240 ms, ends at least 100 ms away from every
+		// probe tick - probes come every 300 ms - so that no probe is in flight
+		// when the drain ends)
+		for {
+			flapD = time.Duration(700+rng.Intn(300)) * time.Millisecond
+			if ph := (240*time.Millisecond + flapD) % (300 * time.Millisecond); ph >= 100*time.Millisecond && ph <= 200*time.Millisecond {
+				break
+			}
+		}
+		sc.HC.Interval = 300 * time.Millisecond
+		op.Ops = append(op.Ops,
+			Op{Kind: "pause", Service: "web", DrainTimeout: flapD + 400*time.Millisecond, PauseTimeout: 3 * time.Second, Delay: 300 * time.Millisecond},
+			Op{Kind: "resume", Service: "web", Delay: 200 * time.Millisecond})
+		sc.Actors = append(sc.Actors, ActorSpec{Name: "zflap", Ops: []Op{
+			{Kind: "probe_mode", Targets: first, Sim: pick(rng, "status=500", "refuse"), After: "drain.marked", AfterN: 1, Delay: 5 * time.Second, Strict: true},
+			{Kind: "probe_mode", Targets: first, Sim: "", After: "drain.cancel", AfterN: 1, Delay: 5 * time.Second}}})
+		// the drain does not restore the target's state before the probes are
+		// answered again: no probe can fail while the target is back in service
+		sc.TaskHolds = append(sc.TaskHolds, TaskHold{Task: "drain:" + first[0], Hold: Hold{At: "drain.end", For: "op.probe_mode", N: 1, Max: time.Second}})
+	}
 	for i := 0; i < n; i++ {
 		d := time.Duration(100+rng.Intn(1400)) * time.Millisecond
 		var o Op
@@ -178,7 +224,7 @@ func genPauseWorld(rng *rand.Rand, sc *Scenario, messages []string, errorPages s
 			o = Op{Kind: "stop", Service: "web", DrainTimeout: time.Second, Message: messages[rng.Intn(len(messages))]}
 			state = "stopped"
 		case 6:
-			o = Op{Kind: "deploy", Service: "web", Targets: mk(), DeployTimeout: 5 * time.Second, DrainTimeout: time.Second, Svc: svc}
+			o = Op{Kind: "deploy", Service: "web", Paths: paths, Targets: mk(), DeployTimeout: 5 * time.Second, DrainTimeout: time.Second, Svc: svc}
 		default:
 			o = Op{Kind: "resume", Service: "web"}
 			state = "running"
@@ -216,6 +262,12 @@ func genPauseWorld(rng *rand.Rand, sc *Scenario, messages []string, errorPages s
 				holdOp(rng, &o, []string{"cmd.found", "service.beforeDrain", "drain.begin", "drain.marked", "drain.end", "cmd.ret", "op.resume", "router.install"})
 			}
 			o.Sim = simDirective(time.Duration(rng.Intn(3))*15*time.Millisecond, 0, "")
+			if flapD > 0 && c == 0 && i == 0 {
+				o = Op{Kind: "request", Path: "/x", Delay: 240 * time.Millisecond, Sim: simDirective(flapD, 0, "")}
+			}
+			if len(paths) > 0 {
+				o.Path = paths[0] + o.Path
+			}
 			a.Ops = append(a.Ops, o)
 		}
 		sc.Actors = append(sc.Actors, a)
